@@ -48,9 +48,38 @@ def opFluxes (j : Json) : Except String Json := do
   pure (Json.mkObj [("fluxes", Json.arr res.toArray), ("nplaq", jnat ps.length),
                     ("sides", jnats (ps.map fun p => p.darts.length))])
 
+def jopt (x : Option Nat) : Json := match x with | some n => jnat n | none => Json.null
+
+/-- every adjacency table and helper of C02 -/
+def opTables (j : Json) : Except String Json := do
+  let L ← parseLat j
+  if !L.noSelfLoop then throw "precondition:self-loop"
+  let T := rotTable L
+  let R := rotOfTable T
+  if anyStuck L R then throw "stuck"
+  let ps := (plaquettes L R).map (·.darts)
+  let es := List.range L.E
+  let vs := List.range L.nV
+  let np := List.range ps.length
+  pure (Json.mkObj [
+    ("coordination", jnats (Tab.coordination L)),
+    ("rot", jlist jnats T.toList),
+    ("evec", jlist jpairI (es.map L.evec)),
+    ("edge_neighbours", jlist jnats (es.map (Tab.edgeNeighbours L))),
+    ("joined", jlist jpairN ((vs.flatMap fun a => (vs.filter fun b => Tab.adjacent L a b).map fun b => (a, b)))),
+    ("plaq", jlist (fun w => Json.mkObj (jdarts w)) ps),
+    ("plaq_vertices", jlist jnats (ps.map (Tab.walkVertices L))),
+    ("edge_plaq", jlist (fun e => Json.arr #[jopt (Tab.edgePlaq ps (e, false)), jopt (Tab.edgePlaq ps (e, true))]) es),
+    ("vertex_plaq", jlist jnats (vs.map (Tab.vertexPlaq L ps))),
+    ("plaq_neighbours", jlist (jlist jopt) (np.map (Tab.plaqNeighbours ps))),
+    ("vertex_neighbours", jlist (jlist jpairN) (vs.map (Tab.vertexNeighbours L))),
+    ("clockwise_about", jlist jnats (vs.map (Tab.clockwiseAbout L))),
+    ("adjacent_plaquettes", jlist (jlist jpairN) (np.map (Tab.adjacentPlaquettes ps)))])
+
 def dispatch (op : String) (j : Json) : Except String Json :=
   match op with
   | "plaquettes" => opPlaquettes j
+  | "tables" => opTables j
   | "fluxes" => opFluxes j
   | _ => throw "bad-op"
 
